@@ -200,7 +200,7 @@ Definition reopen (s : pstate) (rs : list (N * quotas)) : pstate :=
 
 (* the gate in front of the durable steps: Some = the operation goes on, None = it returns
    an error before writing anything *)
-Definition admit (s : pstate) (o : op) : option pstate :=
+Definition gate (s : pstate) (o : op) : option pstate :=
   match o with
   | CreateNode t _ _ _ => reserve s t KNode
   | CreateEdge t _ _ _ _ _ => reserve s t KEdge
@@ -239,7 +239,7 @@ Definition run_op (s : pstate) (o : op) : pstate * bool :=
   match o with
   | Reopen rs => (reopen s rs, true)
   | _ =>
-      match admit s o with
+      match gate s o with
       | None => (s, false)
       | Some s1 => (settle (disk s) (durable_steps 2 s1 o) o, true)
       end
@@ -265,7 +265,7 @@ Fixpoint acked (ops : list op) (acks : list bool) : list op :=
 Definition crash_in (s : pstate) (o : op) (d : nat) : option pstate :=
   match o with
   | Reopen _ => None
-  | _ => match admit s o with
+  | _ => match gate s o with
          | None => None
          | Some s1 => Some (durable_steps d s1 o)
          end
